@@ -45,6 +45,7 @@ run)
     echo "$name $p: $r"
   done
   git -C /repo checkout -- . ; git -C /repo status --short | head -2
+  git -C /verif checkout -- evidence   # evidence written while a seeded change was applied is not evidence about /repo
   ;;
 matrix)
   # every stored seeded change against the check of its own property (regression test of the checks)
@@ -62,5 +63,6 @@ matrix)
     echo "$name $v | $r"
   done
   git -C /repo status --short | head -2
+  git -C /verif checkout -- evidence
   ;;
 esac
